@@ -14,6 +14,9 @@ ASSUMPTIONS = ["a combined scenario set up more than once shares nothing between
 
 def corpus():
     return [
+        "cli mode=users dur=%s conc=1 bodyms=1 maxit=9 failevery=3 failkind=panicint logfmt=text loglevel=panic combine=1" % hx("400ms"),    # C20n: a component's panic fails the iteration whatever F1_LOG_LEVEL says
+        "cli mode=users dur=%s conc=2 bodyms=1 maxit=12 failevery=2 failkind=panicstr logfmt=json loglevel=fatal combine=1" % hx("400ms"),
+        "cli mode=users dur=%s conc=2 bodyms=1 maxit=12 failevery=2 failkind=panicerr loglevel=silent combine=1" % hx("400ms"),
         "scn 2 _/L1;_/N|L2;_/L3 -",
         "scn 2 L1/L5;Pe/L6;L3/L7 -",
         "scn 3 r1/r2;r3/F|Pr;_/L1 c1=L1;c2=L2;c3=L3",
